@@ -100,10 +100,12 @@ def budget_sweep(rng, iid0, basecfg, nref, step=1):
     return out
 
 
-def fault_sweep(iid0, basecfg, nref, kinds=("nan", "nan1", "pinf", "ninf", "huge", "raise"), step=1):
+def fault_sweep(iid0, basecfg, nref, kinds=("nan", "nan1", "pinf", "ninf", "huge", "raise", "raise_linalg", "raise_value", "raise_zerodiv"), step=1):
     out = []
     for kind in kinds:
-        for k in list(range(1, nref + 1, step)) + [-1]:
+        # exception types the library itself catches around some of its own calls: every position (only a few evaluations sit inside such a block)
+        st = 1 if kind in ("raise_linalg", "raise_value") else step
+        for k in list(range(1, nref + 1, st)) + [-1]:
             d = dict(basecfg)
             d["id"] = iid0 + len(out)
             d["fault"] = dict(k=k, kind=kind)
